@@ -29,11 +29,10 @@ Where the statement leaves the count open, the model returns an interval [lo, hi
 numerator (and [Nlo, Nhi] for the span) and decides only when every value in the interval gives
 the same verdict; otherwise the verdict is None (= both accepted) and the reason is listed in
 `bands`.  Sources of an interval:
-  * hourly class: whole days only (truncated day total) vs exact hours/24;
   * hourly temperature feed under a daily/billing meter: day grid vs hours of the feed;
   * billing: the closing read closes the last period (period sum = N) vs the daily grid (N-1);
   * billing: an off-cycle period's days counted as valid usage or as dropped;
-  * zones with DST: +-1 day on every count of valid days (the span itself is exact: calendar days);
+  * zones with DST, daily / billing rows: +-1/8 day on every count of valid days (real day lengths vs days; the span is exact);
   * month coverage: months pooled by month number vs separate (year, month).
 For reporting data two complete readings are returned (usage criteria do not apply / apply when
 usage is supplied); an observation conforms if it matches one of them.
@@ -174,9 +173,12 @@ def evaluate(kind, role, electric, usage_rows, temp_rows, ghi_rows=None, closing
     valid_t_any = any(t_day.values()) if kind != "hourly" else any(v is not None for _, v in temp_rows)
     info["offcycle"] = offcycle
 
-    nlo, nhi = (n_days - 1, n_days + 1) if dst else (n_days, n_days)
-    pad = 1 if dst else 0
-    if dst:
+    # zones with DST: the denominator is the span in calendar days (exact); the class weighs every valid day by its real length
+    # (23/24, 1, 25/24 of a day), the statement counts days: at most three clock changes in 420 days, so the two counts differ by
+    # at most 1/8 day (daily / billing rows; the hourly class counts real hours either way)
+    nlo, nhi = n_days, n_days
+    pad = F(1, 8) if (dst and kind != "hourly") else 0
+    if pad:
         bands.append("dst_zone_margin")
 
     def count(d, upto_last):
@@ -203,7 +205,7 @@ def evaluate(kind, role, electric, usage_rows, temp_rows, ghi_rows=None, closing
                 a, b = rows_list
                 assert len(a) == len(b)
                 h = sum(1 for (_, x), (_, y) in list(zip(a, b))[:-1] if x is not None and y is not None)
-            return min(h // 24, whole_days(rows_list)), F(h, 24)
+            return F(h, 24), F(h, 24)   # exact hours / 24 (the class no longer truncates the total to whole days)
 
         T = interval([temp_rows])
         if usage_rows is not None:
